@@ -130,7 +130,9 @@ class ModelModifier:
 
     # remove all the constant from the model.
     for buffer in quantized_model.buffers:
-      if buffer.data is not None:
+      # Buffers with empty data have nothing to store externally; they stay as
+      # they are so that both serialization passes have the same length.
+      if buffer.data is not None and len(buffer.data):
         buffer.data = None
         buffer.offset = 1
         buffer.size = 1
@@ -142,7 +144,7 @@ class ModelModifier:
       dummy_bytearray += b'\0'
     for buffer_idx, buffer in enumerate(quantized_model.buffers):
       buffer_data = self._constant_map[buffer_idx]
-      if buffer_data is None:
+      if buffer_data is None or not len(buffer_data):
         continue
       buffer.offset = len(dummy_bytearray)
       buffer.size = len(buffer_data)
